@@ -33,10 +33,14 @@ def exclTags (ps : PState) (toks : List String) : List String × Bool :=
     match ps.obj v, parseIntList axes with
     | some (_, t), some ax =>
       let mat := T_materialises t ax
-      ((if Excl_shapeUndo t ax then ["F4"] else []) ++
-       (if mat && Excl_transposeView t then ["F5"] else []) ++
+      ((if mat && Excl_transposeView t then ["F5"] else []) ++
        (if mat && Excl_transposeCol t then ["F6"] else []) ++
-       (if Excl_shortStrides t then ["F24"] else []), mat)
+       (if Excl_shortStrides t then ["F24"] else []) ++
+       (if Excl_vectorT t ax then ["F28"] else []), mat)
+    | _, _ => ([], false)
+  | ["safeT", v, axes] =>
+    match ps.obj v, parseIntList axes with
+    | some (_, t), some ax => ((if Excl_vectorT t ax then ["F28"] else []) ++ (if Excl_shortStrides t then ["F24"] else []), false)
     | _, _ => ([], false)
   | ["transpose", v] =>
     match ps.obj v with
@@ -46,6 +50,19 @@ def exclTags (ps : PState) (toks : List String) : List String × Bool :=
   | ["iter", v, _] =>
     match ps.obj v with
     | some (_, t) => ((if Excl_shortStrides t then ["F24"] else []), false)
+    | _ => ([], false)
+  | ["calcS", v, spec] =>
+    match ps.obj v, parseSlList spec with
+    | some (_, t), some sls =>
+      ((if Excl_shapeSFloor t.ap.shape sls then ["F3"] else []) ++
+       (if Excl_oneCellScalar t sls then ["F25"] else []), false)
+    | _, _ => ([], false)
+  | ["reshape", v, _] =>
+    match ps.obj v with
+    | some (_, t) =>
+      ((if Excl_reshapeLongWindow t then ["F16"] else []) ++
+       (if Excl_transposeView t then ["F5"] else []) ++ (if Excl_transposeCol t then ["F6"] else []) ++
+       (if Excl_shortStrides t then ["F24"] else []), true)
     | _ => ([], false)
   | _ => ([], false)
 
@@ -71,6 +88,18 @@ def runProgram (line : String) : List String :=
         let target := stepTarget ps toks
         let (ps', mo) := stepM ps i toks
         let so := stepS ps ps' ss i toks (mResClass mo)
+        -- defects visible on the object a step creates
+        let postTags : List String :=
+          if ps'.ds.size > ps.ds.size then
+            match ps'.ds[ps.ds.size]? with
+            | some d => (if Excl_shortStrides d then ["F24"] else []) ++ (if Excl_contigFlagWrong d then ["F27"] else [])
+            | none => []
+          else match target with
+            | some id => (match ps'.ds[id]? with
+              | some d => if Excl_shortStrides d then ["F24"] else []
+              | none => [])
+            | none => []
+        let tags := tags ++ postTags
         -- taint: the target object, a newly created object (inherits the target's taints), the buffer
         let tn := match target with
           | some id =>
@@ -83,9 +112,19 @@ def runProgram (line : String) : List String :=
               | none => tn
             else tn
           | none => tn
+        -- writes through a tainted object taint its buffer; copies from a tainted source taint the destination
+        let writes := ["memset", "zero", "setat", "copy", "copyto", "transpose", "reshape"].contains (toks.head?.getD "")
+        let tn := if writes then
+            let objs := toks.filterMap (fun t => (ps.obj t).map (·.1))
+            let all := (objs.flatMap (fun id => tn.ofObj ps id)).eraseDups
+            if all.isEmpty then tn else
+              objs.foldl (fun tn id => match ps.ds[id]? with
+                | some d => { tn with buf := addAt tn.buf d.win.buf all, obj := addAt tn.obj id all }
+                | none => tn) tn
+          else tn
         let excuse := match target with
           | some id => tn.ofObj ps' id ++ (if ps'.ds.size > ps.ds.size then tn.ofObj ps' ps.ds.size else [])
-          | none => []
+          | none => if ps'.ds.size > ps.ds.size then tn.ofObj ps' ps.ds.size else []
         let excuse := excuse.eraseDups
         let (mf, stop) := match mo with | .fields f => (f, false) | .stop f => (f, true)
         let acc := s!"{pid}.{i} M {mf}" :: acc
